@@ -161,6 +161,8 @@ class Cont:
                         mc.copy(op[1], op[2], without_meta=True)
                     else:
                         mc.copy(op[1], op[2])
+                elif k == "copyobj":  # source given as node object
+                    mc.copy(mc[op[1]], op[2])
                 elif k == "move":
                     mc.move(op[1], op[2])
                 elif k == "gcopy":  # [gcopy, group, srckey, dstkey]: called on a sub-group, both paths relative to it
@@ -256,12 +258,14 @@ class CModel:
                 self.meta[(node, s)] = (tuple(info["version"]), instance(op[2], n))
             elif k == "detach":
                 del self.meta[(op[1], op[2].split("+")[0])]
-            elif k == "copy":
+            elif k in ("copy", "copyobj"):
                 s, d = op[1], op[2]
                 t.copy(s, d)
-                if not op[3]:
+                if k == "copyobj" or not op[3]:
                     for (p, sn), v in list(self.meta.items()):
-                        if p == s or p.startswith(s + "/"):
+                        if s == "/":  # the whole container into one of its (new) groups
+                            self.meta[(d if p == "/" else d + p, sn)] = (v[0], json.loads(json.dumps(v[1])))
+                        elif p == s or p.startswith(s + "/"):
                             self.meta[(d + p[len(s) :], sn)] = (v[0], json.loads(json.dumps(v[1])))
             elif k == "move":
                 s, d = op[1], op[2]
@@ -484,10 +488,17 @@ def user_view(mc, probe_paths=()):
     names = []
     mc.visit(lambda n: names.append(n))
     per_group = []
+    reversed_listings = []
 
     def grp(g, path):
         ks = list(g.keys())
         per_group.append((path, tuple(sorted(ks)), len(g), tuple(sorted(iter(g))), tuple(sorted(k for k, _ in g.items())), len(list(g.values()))))
+        try:
+            rv = tuple(sorted(reversed(g)))  # mappings may or may not be reversible; if they are: the same members
+        except Exception:  # noqa: BLE001  (not reversible - however that is reported)
+            rv = None
+        if rv is not None:
+            reversed_listings.append((path, rv))
         for k in ks:
             o = g[k]
             if h5ops.is_group(o):
@@ -505,7 +516,7 @@ def user_view(mc, probe_paths=()):
         inn = p in mc
         g = mc.get(p)
         probes.append((p, bool(inn), g is not None))
-    return {"visit": a, "rec": b, "items": c, "names": tuple(sorted(names)), "groups": tuple(sorted(per_group)), "probes": tuple(probes), "nav": nav_view(mc)}
+    return {"visit": a, "rec": b, "items": c, "names": tuple(sorted(names)), "groups": tuple(sorted(per_group)), "probes": tuple(probes), "nav": nav_view(mc), "reversed": tuple(reversed_listings)}
 
 
 def nav_view(f):
